@@ -15,6 +15,10 @@ class HostStop(StopIteration):
     be the one Python's iteration protocol uses as its end marker)."""
 
 
+class HostValueError(ValueError):
+    """A host function rejecting its argument with the exception Python code usually uses for that."""
+
+
 class Host:
     """Scripted host functions bound in `names` (mirror of Model.call_host)."""
 
@@ -132,6 +136,8 @@ class Host:
                     raise HostError('probe %s' % (i,))
                 if host.probe_faults.get(host.probe_calls) == 'stop':
                     raise HostStop('probe %s' % (i,))
+                if host.probe_faults.get(host.probe_calls) == 'value':
+                    raise HostValueError('probe %s' % (i,))
                 return args[1] if len(args) > 1 else i
 
             def boom(*args):
@@ -190,7 +196,7 @@ class RecDict(dict):
 
 def classify(exc):
     from smartquery.exceptions import ParserError
-    if isinstance(exc, (HostError, HostStop)):
+    if isinstance(exc, (HostError, HostStop, HostValueError)):
         return 'host'
     if isinstance(exc, ParserError):
         return 'lang'
